@@ -124,8 +124,16 @@ pub fn safe_interpreter() -> Interpreter<'static> {
 
 /// parse against the safe interpreter and execute, with or without the monitor
 pub fn run_program(text: &str, monitor: bool) -> Run {
+    run_program_in(safe_interpreter(), text, monitor)
+}
+
+/// the same against the whole of std (hand-written programs over a scratch directory only)
+pub fn run_program_full(text: &str, monitor: bool) -> Run {
+    run_program_in(Interpreter::with_stdlib(), text, monitor)
+}
+
+fn run_program_in(interp: Interpreter<'static>, text: &str, monitor: bool) -> Run {
     run::default_budget();
-    let interp = safe_interpreter();
     let code = match run::parse_guarded(&interp, text) {
         Ok(Ok(code)) => code,
         Ok(Err(kind)) => return Run { outcome: Outcome::Rejected(kind), log: MonitorLog::default(), static_type: None },
